@@ -116,10 +116,9 @@ def r2_send(ctx, cfg):
         ctx.ob(R, SEND, "BankMsg::Send{recipient, amount}", ok, "message sent is %s" % fmt(m)[:160], fn=f, line=t["line"],
                sample="BankMsg::Send{to_address: recipient, amount: amount}")
         # result propagated: returned Ok payload / error
-        ret = P.ret(f)
-        ok = contains(ret, lambda x: x[0] == "call" and x[1].endswith("FromResidual::from_residual") and
-                      contains(x[2][0], lambda y: y[0] == "call" and y[1] == "app::CosmosRouter::execute"))
-        ctx.ob(R, SEND, "transfer-error-propagates", ok, "send does not propagate the bank error", fn=f, sample="router.execute(..)?")
+        # (`let r = router.execute(..)?; Ok(r)` and the tail call `router.execute(..)` both qualify)
+        ok = q.error_propagates(P, f, bid)
+        ctx.ob(R, SEND, "transfer-error-propagates", ok, "send does not propagate the bank error", fn=f, sample="router.execute(..)? / returned as it is")
         # skipped only when there is nothing to send
         conds = q.dominating_conditions(P, f, bid)
         ok = q.has_cond(conds, "is_empty", pol=False, arg_pred=lambda args: is_param(args[0], "amount"))
